@@ -14,6 +14,7 @@ import (
 	"encoding/json"
 	"fmt"
 	"math/rand"
+	"runtime"
 	"sort"
 	"strings"
 	"sync"
@@ -51,10 +52,29 @@ func (s *sched) hook(site string, a, b any) {
 	<-p.rel
 }
 
+// key identifies a parked goroutine independently of the order in which goroutines happened to
+// reach their hooks, so that a choice list replays exactly.
+func (p *parked) key() string {
+	k := p.site
+	for _, v := range []any{p.a, p.b} {
+		switch x := v.(type) {
+		case string:
+			k += "/" + x
+		case *jrpc2.Request:
+			if x != nil {
+				k += "/" + x.Method() + x.ParamString() + x.ID()
+			}
+		}
+	}
+	return k
+}
+
 func (s *sched) snapshot() []*parked {
 	s.mu.Lock()
 	defer s.mu.Unlock()
-	return append([]*parked(nil), s.parked...)
+	ps := append([]*parked(nil), s.parked...)
+	sort.SliceStable(ps, func(i, j int) bool { return ps[i].key() < ps[j].key() })
+	return ps
 }
 
 func (s *sched) release(p *parked) {
@@ -274,6 +294,7 @@ func runServerScenario(t *testing.T, sc *srvScenario, pickFn func(n int) int, sk
 	if maxSteps == 0 {
 		maxSteps = 4000
 	}
+	defer runtime.GOMAXPROCS(runtime.GOMAXPROCS(1)) // one goroutine at a time: schedules replay exactly
 	synctest.Test(t, func(t *testing.T) {
 		jrpc2.VerifHook = r.sched.hook
 		defer func() { jrpc2.VerifHook = nil }()
